@@ -146,6 +146,18 @@ def shapes(tier):
     return out
 
 
+def defect_ratio(m, right, left):
+    """the first moment m as a multiple of (right spacing - left spacing): '1', '1/2', ... if it is one at every test point,
+    'not a multiple of the spacing difference' otherwise.  This is the *signature* of a moment defect: weights swapped between
+    the two neighbours give exactly 1, index-space weights 1/2 give exactly 1/2; any other wrong weight gives something else."""
+    d = dag.sub(dag.lift(right), dag.lift(left))
+    try:
+        c = dag.const_value(dag.div(dag.lift(m), d))
+    except ZeroDivisionError:
+        c = None
+    return str(c) if c is not None else "not a constant multiple of the spacing difference"
+
+
 def midpoint_subs(pair):
     """hypothesis of generated grids: every odd fine node is the midpoint of its coarse neighbours"""
     nr, nt = pair.shape[0], pair.shape[1]
@@ -262,6 +274,8 @@ def check_c08(ck, tier):
             neg = unit = None
             mom_r = mom_t = None
             mom_r_mid = mom_t_mid = None
+            sig_r, sig_t = set(), set()
+            fh_, fk_, nr_ = pr.fine.f["radial_spacings_"].get(), pr.fine.f["angular_spacings_"].get(), pr.shape[0]
             for f, row in T[P].items():
                 if row is None:
                     continue
@@ -279,10 +293,14 @@ def check_c08(ck, tier):
                     cju = cj if not (cj == 0 and fj // 2 + 1 == cnt and fj % 2 == 1) else cnt
                     mr = mr + w * (pr.rpos(2 * ci) - pr.rpos(fi))
                     mt = mt + w * (pr.tpos(2 * cju) - pr.tpos(fj))
-                if not zero(mr) and mom_r is None:
-                    mom_r = (fi, fj, pretty(mr))
-                if not zero(mt) and mom_t is None:
-                    mom_t = (fi, fj, pretty(mt))
+                if not zero(mr):
+                    sig_r.add(defect_ratio(mr, fh_.gen(fi), fh_.gen(fi - 1)) if 0 < fi < nr_ - 1 else "moment at a boundary node")
+                    if mom_r is None:
+                        mom_r = (fi, fj, pretty(mr))
+                if not zero(mt):
+                    sig_t.add(defect_ratio(mt, fk_.gen(fj % nt), fk_.gen((fj - 1) % nt)))
+                    if mom_t is None:
+                        mom_t = (fi, fj, pretty(mt))
                 if mom_r_mid is None:
                     mm = dag.subst(mr, msub)
                     if not zero(mm):
@@ -301,10 +319,12 @@ def check_c08(ck, tier):
                 for direction, m in (("radial", mr_), ("angular", mt_)):
                     ck.instance(rid, "%s %s %s" % (P, direction, sk))
                     if m:
+                        sg = sorted(sig_r if direction == "radial" else sig_t)
                         ck.violation(rid, "%s:%s" % (tag, direction), site,
                                      "%s: at fine node (%d,%d) the %s first moment sum_j w_j (x_j - x) is %s, not 0: a function linear in %s is not reproduced%s" % (
                                          sk, m[0], m[1], direction, m[2], "r" if direction == "radial" else "theta",
-                                         "" if rid == "R-C08-5a" else " even though the fine node is the midpoint of its coarse neighbours"))
+                                         "" if rid == "R-C08-5a" else " even though the fine node is the midpoint of its coarse neighbours"),
+                                     signature=("first moment = %s x (spacing after - spacing before the fine node), at every node where it is not 0" % ", ".join(sg)) if rid == "R-C08-5a" else None)
                     else:
                         ck.ok(rid, "%s %s" % (P, direction))
 
@@ -365,6 +385,7 @@ def check_fmg(ck, tier):
         bad_c = None
         bad_c_mid = None
         low_order_classes = set()
+        sig_c = set()
         for f, row in T.items():
             if row is None:
                 continue
@@ -391,8 +412,10 @@ def check_fmg(ck, tier):
                     m = dag.total(wgt * dag.powi(dr[I], a) * dag.powi(dt[I], b) for I, wgt in row.items())
                     if fallback and fi % 2 == 1 and a >= 1:
                         if a == 1 and b == 0:
-                            if not zero(m) and bad_c is None:
-                                bad_c = (fi, fj, pretty(m))
+                            if not zero(m):
+                                sig_c.add(defect_ratio(m, pr.fine.f["radial_spacings_"].get().gen(fi), pr.fine.f["radial_spacings_"].get().gen(fi - 1)))
+                                if bad_c is None:
+                                    bad_c = (fi, fj, pretty(m))
                             if bad_c_mid is None:
                                 mm = dag.subst(m, msub)
                                 if not zero(mm):
@@ -407,7 +430,8 @@ def check_fmg(ck, tier):
         else:
             ck.ok("R-C09-1b", sk, sample={"shape": sk, "moments checked per node": 15})
         if bad_c:
-            ck.violation("R-C09-1c", "fmg:fallback:radial", site, "%s: on the fallback line at fine node (%d,%d) the radial first moment is %s (same swapped weights as the standard prolongation)" % ((sk,) + bad_c))
+            ck.violation("R-C09-1c", "fmg:fallback:radial", site, "%s: on the fallback line at fine node (%d,%d) the radial first moment is %s (same swapped weights as the standard prolongation)" % ((sk,) + bad_c),
+                         signature="first moment = %s x (spacing after - spacing before the fine node), at every node where it is not 0" % ", ".join(sorted(sig_c)))
         else:
             ck.ok("R-C09-1c", sk)
         if bad_c_mid:
